@@ -3,7 +3,7 @@ from checklib import cbytes, clist, cpair, cN
 
 ID = "C15"
 HARNESS = "c15"
-N_CASES = {"quick": 120, "thorough": 1000}
+N_CASES = {"quick": 120, "thorough": 800}
 N_SEARCH = {"quick": 1, "thorough": 2}
 SHARD = 15
 HAS_MODEL_OUT = True
